@@ -26,7 +26,7 @@ pub fn fault_gen(p: &mut Profile) {
     g.schedule_knobs = true;
     g.op_weights = [50, 8, 14, 14, 4, 6, 0, 0, 2];
     g.growth_pct = 6;
-    g.l1_short_pct = 10;
+    g.l1_short_pct = 25;
     let o = &mut p.oracles;
     o.fault_free = false;
     o.readback = true;
